@@ -63,7 +63,15 @@ def rules(model: Model, tier: str) -> List[RuleResult]:
     _get_method(model, Rr)
     _contract(model, sites, A, N)
     for fc in ac.function_classes(model):
-        option_merge(model, fc, O)
+        if option_merge(model, fc, O) == 0 and fc.name in ac.MERGING_CLASSES:
+            # no literal set_default_option(..) call: the merge is decided semantically, whatever its spelling ({**a, **b}, dict + update, a helper)
+            verdict = ac.option_merge_semantic(model, fc)
+            if verdict is None:
+                O.undecided(fc.forward, fc.forward.node, "cannot find how the saved backward options are built from the forward options and bck_options")
+            elif verdict == "":
+                O.ok(fc.forward.fq, "%s.forward: the saved backward options are the forward options overridden by bck_options (abstract evaluation of the dictionary statements)" % fc.name)
+            else:
+                O.bad(fc.forward, fc.forward.node, "the saved backward options are not the forward options overridden by the caller's bck_options: %s" % verdict)
     K = RuleResult(PROP, "C18-K", "minimize: method kind -> algorithm family truth table (built-in minimizer, built-in root finder, unknown name, callable)", min_instances=4)
     Dm = RuleResult(PROP, "C18-D", "solve / symeig: the backward defaults do not inherit the forward `method` (a forward-only callable is never reused for the adjoint system)", min_instances=2)
     _minimize_kinds(model, K)
